@@ -178,6 +178,21 @@ def _watch_wait():
     )
 
 
+def _inplan_pause(kind):
+    """In-plan pause messages: hard/deferred, in a resumable section and after clear_checkpoint
+    (bare plan: the engine itself has to close the run)."""
+    pause = M("pause", None, defer=True) if kind.startswith("defer") else M("pause")
+    nodes = [M("open_run"), M("checkpoint"), point(("d1",), "m1", 0.5)]
+    if kind.endswith("nonresumable"):
+        nodes += [M("clear_checkpoint"), M("null", None, "unsafe")]
+    nodes += [M("null", None, "before-pause"), pause, M("null", None, "after-pause")]
+    if kind.startswith("defer"):
+        nodes += [M("sleep", None, 0.1), M("checkpoint"), M("null", None, "after-checkpoint")]
+    nodes += [point(("d1",), "m1", 1.0)] if not kind.endswith("nonresumable") else [M("set", "m1", 1.0, group="q"), M("wait", None, group="q")]
+    nodes += [M("close_run")]
+    return SEQ(*nodes)
+
+
 def B(name, *args, **kwargs):
     return ["builtin", name, {"args": list(args), "kwargs": kwargs}]
 
@@ -196,6 +211,10 @@ CORPUS = {
     "sleepy": (_sleepy(), DEV_A, 0),
     "async_stage": (_async_stage(), DEV_B, 0),
     "watch_wait": (_watch_wait(), DEV_A, 0),
+    "pause_msg": (_inplan_pause("hard"), DEV_A, 0),
+    "pause_msg_nonresumable": (_inplan_pause("hard_nonresumable"), DEV_A, 0),
+    "defer_msg": (_inplan_pause("defer"), DEV_A, 0),
+    "defer_msg_nonresumable": (_inplan_pause("defer_nonresumable"), DEV_A, 0),
     "grid22": (B("grid_scan", DS("d1"), D("m1"), 0.0, 1.0, 2, D("m2"), 0.0, 1.0, 2, True), DEV_A, 1),
     "rel_scan": (B("rel_scan", DS("d1"), D("m1"), -1.0, 1.0, 3), DEV_A, 1),
     "list_scan": (B("list_scan", DS("d2"), D("m1"), [0.0, 0.5, 2.0], D("m2"), [1.0, 1.5, 0.0]), DEV_A, 1),
@@ -261,6 +280,38 @@ def single_request_cases(names, kinds, decisions=("resume", "abort", "stop", "ha
                     c = base_case(name)
                     c["stages"] = [{"do": "call", "inj": [{"at": k, "do": kind}]}, {"do": "resume"}]
                     yield _fin(c, probe, re)
+
+
+_CALLS = {}
+
+
+def single_fault_cases(names, kinds=("raise",), dts=(0.0, 0.3), probe=True):
+    """One device fault per case: every (device, op, n-th call) observed in the fault-free run of each
+    named plan x fault kind ('raise', and 'status_fail' for set/trigger/kickoff/complete/stage/unstage)."""
+    from .harness import run_case
+
+    for name in names:
+        if name not in _CALLS:
+            obs = run_case(base_case(name))
+            cnt = {}
+            for _, dev, op, _ in obs.world.ledger:
+                if op in ("set", "trigger", "read", "stage", "unstage", "stop", "kickoff", "complete", "collect", "configure"):
+                    cnt[(dev, op)] = cnt.get((dev, op), 0) + 1
+            _CALLS[name] = cnt
+        for (dev, op), n_calls in sorted(_CALLS[name].items()):
+            for n in range(1, n_calls + 1):
+                for kind in kinds:
+                    if kind == "status_fail":
+                        if op not in ("set", "trigger", "kickoff", "complete"):
+                            continue
+                        for dt in dts:
+                            c = base_case(name)
+                            c["faults"] = [{"dev": dev, "op": op, "n": n, "kind": kind, "dt": dt}]
+                            yield _fin(c, probe, None)
+                    else:
+                        c = base_case(name)
+                        c["faults"] = [{"dev": dev, "op": op, "n": n, "kind": kind}]
+                        yield _fin(c, probe, None)
 
 
 def _fin(c, probe, re):
